@@ -206,7 +206,7 @@ CLASS_PROGRAMS = [
     "class M(type):\n    def __new__(m, n, b, d, **k):\n        c = super().__new__(m, n, b, d)\n        c.kw = k\n        return c\n    def __init__(c, n, b, d, **k):\n        pass\nclass B: pass\nclass A(B, metaclass=M, flag=1):\n    y = 2\nr = (type(A).__name__, A.kw, A.y, [k.__name__ for k in A.__mro__])\n",
     "log = []\nclass Base:\n    def __init_subclass__(cls, tag=None, **kw):\n        log.append((cls.__name__, tag))\nclass C(Base, tag='t'):\n    pass\nr = log\n",
     "def deco(c):\n    c.tag = 1\n    return c\n@deco\nclass C:\n    pass\ndef outer():\n    x = 5\n    class A:\n        def m(self):\n            return x\n    class B(A):\n        def m(self):\n            return super().m() + x\n    return B().m()\nr = (C.tag, outer())\n",
-    "class A:\n    n = 0\n    for i in (1, 2, 3):\n        n += i\n    if n > 5:\n        big = True\n    class Inner:\n        z = 9\nr = (A.n, A.big, A.Inner.z)\n",
+    "class A:\n    n = 0\n    while n < 6:\n        n += 2\n    if n > 5:\n        big = True\n    class Inner:\n        z = 9\nr = (A.n, A.big, A.Inner.z)\n",
 ]
 
 
@@ -221,3 +221,6 @@ def replay_classes(rp):
 
 REPLAY = dict(c13.REPLAY)
 REPLAY["classes"] = replay_classes
+
+from suites import thorough as _th
+GROUPS["thorough:class-programs"] = _th.bounded_from_replay("bounded/class-programs", replay_classes)
